@@ -122,6 +122,11 @@ def search(pid, unit, failure, tier='quick', seed=0, deadline=None):
         return None
     deadline = deadline or (time.time() + BUDGET_S.get(tier, 25))
     rng = random.Random(seed or 1)
+    if unit == 'U-LEXD' and pid in ('C14', 'C09'):
+        from . import witness_lexd
+        w = witness_lexd.search(min(deadline, time.time() + 10), rng)
+        if w:
+            return w
     if unit in DELTA_UNITS:
         if pid == 'C17':
             from . import witness_header
@@ -171,6 +176,9 @@ def replay(w):
         r = replayrun.run(w['mode'], data, timeout=30)
         if w['mode'] == 'delta' and 'expect_result' not in w:
             return _crashes(r)
+        if w.get('expect_lex_error') or w.get('expect_delta_tokens'):
+            from . import witness_lexd
+            return witness_lexd.replay_fails(w, r)
         if 'expect_l1800' in w:
             if r.get('status') != 'ok':
                 return r.get('status') in ('panic', 'crash')
